@@ -95,12 +95,15 @@ def corruptions():
                 return {"lookup"}
 
     def wrong_key(t):
-        i = _first_event_with(t, lambda e: any(b[0].startswith("dovetails_") for l in e["obs"]["lines"] for b in l["br"]))
+        def real_dovetail(e, b):
+            ls = e["obs"]["lines"]
+            return b[0].startswith("dovetails_") and all(x >= 1 and not ls[x - 1]["virt"] for x in b[1])
+        i = _first_event_with(t, lambda e: any(real_dovetail(e, b) for l in e["obs"]["lines"] for b in l["br"]))
         if i is None:
             return None
         for l in t["ev"][i]["obs"]["lines"]:
             for b in l["br"]:
-                if b[0].startswith("dovetails_"):
+                if real_dovetail(t["ev"][i], b):
                     b[0] = "dovetails_L" if b[0] == "dovetails_R" else "dovetails_R"
                     return {"keys", "nbrs"}
 
